@@ -27,6 +27,13 @@
      uses the exact ceiling Z.log2_up (measured to agree for every m < 2^29).
    * the index of a variable is a list of integers (Python tuples / lists).
    * `forbid(i,j)` with negative j (Python negative indexing) is not modelled. *)
+(* Names: everything the driver glue refers to carries a prefix so that it survives
+   extraction into the single shared model.ml without renaming:
+     group interface  gsize, vg_indices, pattern_indices, vg_to_id, vg_to_index, vg_labels, vg_create
+     shapes           GSingle | GBlock | GWords | BipEdges | DiEdges | GraphEdges | UMap | BinMap
+     history machine  vm_step, vm_run, vm_trace, vm_init; ops OpNewGroup | OpAddClause | OpRaiseNumvar;
+                      outcomes VmDone | VmAllocated | VmValueError | VmCrash; state st_numvar, st_groups, st_clauses
+     names            all_variable_labels, vg_label_of *)
 From Coq Require Import ZArith List Bool Ascii String DecimalString.
 From Cnfgen Require Import Sem Comb.
 Import ListNotations.
@@ -82,9 +89,9 @@ Fixpoint combs_rep {A} (l : list A) (k : nat) : list (list A) :=
 Inductive wkind := WComb | WCombRepl | WPerm | WWord.
 
 Inductive shape :=
-| Single                                          (* new_variable *)
-| Block (ranges : list Z)                         (* new_block *)
-| Words (kind : wkind) (n k : Z)                  (* new_combinations / _with_replacement / new_permutations / new_words *)
+| GSingle                                          (* new_variable *)
+| GBlock (ranges : list Z)                         (* new_block *)
+| GWords (kind : wkind) (n k : Z)                  (* new_combinations / _with_replacement / new_permutations / new_words *)
 | BipEdges (adj : list (list Z)) (R : Z)          (* new_bipartite_edges, new_sparse_mapping *)
 | DiEdges (succ : list (list Z)) (bysucc : bool)  (* new_digraph_edges, sortby = 'pred' (false) | 'succ' (true) *)
 | GraphEdges (adj : list (list Z))                (* new_graph_edges *)
@@ -237,19 +244,19 @@ Definition down_range (k : Z) : list Z := map (fun b => k - 1 - b) (zrange 0 k).
 (* ---------- the group interface ---------- *)
 Definition gsize (s : shape) : Z :=
   match s with
-  | Single => 1
-  | Block ranges => snd (block_weights ranges)
-  | Words kind n k => len (words_enum kind n k)
+  | GSingle => 1
+  | GBlock ranges => snd (block_weights ranges)
+  | GWords kind n k => len (words_enum kind n k)
   | BinMap n m => n * bitlength m
   | _ => match shape_bip s with Some (adj, _) => bip_size adj | None => 0 end
   end.
 
 (* indices(): all legal indices, in the order the code enumerates them *)
-Definition indices (s : shape) : list idx :=
+Definition vg_indices (s : shape) : list idx :=
   match s with
-  | Single => [[]]
-  | Block ranges => prod (map (fun r => zrange 1 (r + 1)) ranges)
-  | Words kind n k => words_enum kind n k
+  | GSingle => [[]]
+  | GBlock ranges => prod (map (fun r => zrange 1 (r + 1)) ranges)
+  | GWords kind n k => words_enum kind n k
   | BinMap n m => flat_map (fun i => map (fun b => [i; b]) (down_range (bitlength m))) (zrange 1 (n + 1))
   | _ => match shape_bip s with Some (adj, _) => map (of_core s) (bip_edges adj) | None => [] end
   end.
@@ -260,13 +267,13 @@ Definition all_some (pat : list (option Z)) : option (list Z) :=
 (* indices( *pattern ): None = the code raises ValueError *)
 Definition pattern_indices (s : shape) (pat : list (option Z)) : option (list idx) :=
   match s with
-  | Single => match pat with [] => Some [[]] | _ => None end
-  | Block ranges =>
+  | GSingle => match pat with [] => Some [[]] | _ => None end
+  | GBlock ranges =>
       match pat with
-      | [] => Some (indices s)
+      | [] => Some (vg_indices s)
       | _ => match block_pattern pat ranges with Some x => Some (prod x) | None => None end
       end
-  | Words kind n k =>
+  | GWords kind n k =>
       match pat with
       | [] => Some (words_enum kind n k)
       | _ => match all_some pat with
@@ -276,7 +283,7 @@ Definition pattern_indices (s : shape) (pat : list (option Z)) : option (list id
       end
   | BinMap n m =>
       match pat with
-      | [] => Some (indices s)
+      | [] => Some (vg_indices s)
       | [pi; pb] =>
           let kb := bitlength m in
           match (match pi with None => Some (zrange 1 (n + 1))
@@ -318,14 +325,14 @@ Definition pattern_indices (s : shape) (pat : list (option Z)) : option (list id
   end.
 
 (* group( *index ) for a full index: None = ValueError *)
-Definition to_id (off : Z) (s : shape) (i : idx) : option Z :=
+Definition vg_to_id (off : Z) (s : shape) (i : idx) : option Z :=
   match s with
-  | Single => match i with [] => Some (off + 1) | _ => None end
-  | Block ranges =>
+  | GSingle => match i with [] => Some (off + 1) | _ => None end
+  | GBlock ranges =>
       if (Nat.eqb (List.length i) (List.length ranges)) && negb (Nat.eqb (List.length i) 0)
          && forallb (fun xr => (1 <=? fst xr) && (fst xr <=? snd xr)) (combine i ranges)
       then Some (off + 1 + block_relative i (fst (block_weights ranges))) else None
-  | Words kind n k => option_map (fun p => off + 1 + p) (pos_of i (words_enum kind n k))
+  | GWords kind n k => option_map (fun p => off + 1 + p) (pos_of i (words_enum kind n k))
   | BinMap n m =>
       match i with
       | [x; b] => if (1 <=? x) && (x <=? n) && (0 <=? b) && (b <? bitlength m)
@@ -339,13 +346,13 @@ Definition to_id (off : Z) (s : shape) (i : idx) : option Z :=
   end.
 
 (* group.to_index(lit): None = ValueError *)
-Definition to_index (off : Z) (s : shape) (lit : Z) : option idx :=
+Definition vg_to_index (off : Z) (s : shape) (lit : Z) : option idx :=
   let var := Z.abs lit in
   if (off + 1 <=? var) && (var <=? off + gsize s) then
     match s with
-    | Single => Some []
-    | Block ranges => Some (block_digits (var - (off + 1)) (fst (block_weights ranges)))
-    | Words kind n k => znth (var - off - 1) (words_enum kind n k)
+    | GSingle => Some []
+    | GBlock ranges => Some (block_digits (var - (off + 1)) (fst (block_weights ranges)))
+    | GWords kind n k => znth (var - off - 1) (words_enum kind n k)
     | BinMap n m =>
         let kb := bitlength m in
         let v := var - off in
@@ -378,13 +385,13 @@ Definition render_or_empty (pieces : list string) (args : list string) : string 
 
 Definition label_of_index (g : group) (i : idx) : string :=
   match g_shape g with
-  | Single => match g_fmt g with p :: _ => p | [] => EmptyString end
-  | Words _ _ _ => render_or_empty (g_fmt g) [String.concat "," (map print_Z i)]
+  | GSingle => match g_fmt g with p :: _ => p | [] => EmptyString end
+  | GWords _ _ _ => render_or_empty (g_fmt g) [String.concat "," (map print_Z i)]
   | _ => render_or_empty (g_fmt g) (map print_Z i)
   end.
 
 (* group.label() : labels of all the variables of the group, in identifier order *)
-Definition labels (g : group) : list string := map (label_of_index g) (indices (g_shape g)).
+Definition vg_labels (g : group) : list string := map (label_of_index g) (vg_indices (g_shape g)).
 
 (* ---------- creation ---------- *)
 Inductive creation := Created | CrValueError | CrCrash.
@@ -392,22 +399,22 @@ Inductive creation := Created | CrValueError | CrCrash.
 (* the format check done by the constructors *)
 Definition fmt_ok (s : shape) (fmt : list string) : bool :=
   match s with
-  | Single | BinMap _ _ => true
-  | Block ranges => match render fmt (map print_Z ranges) with Some _ => true | None => false end
-  | Words _ _ _ => match render fmt ["2"%string] with Some _ => true | None => false end
+  | GSingle | BinMap _ _ => true
+  | GBlock ranges => match render fmt (map print_Z ranges) with Some _ => true | None => false end
+  | GWords _ _ _ => match render fmt ["2"%string] with Some _ => true | None => false end
   | _ => match render fmt ["1"%string; "1"%string] with Some _ => true | None => false end
   end.
 
 (* [fix2 = false]: the code as it is — 'combinations_with_replacement' is spelled
    '..._replacements' in WordOfIndicesVariables.__init__, so the enumerator is never
    bound: UnboundLocalError *)
-Definition create (fix2 : bool) (g : group) : creation :=
+Definition vg_create (fix2 : bool) (g : group) : creation :=
   if negb (fmt_ok (g_shape g) (g_fmt g)) then CrValueError else
   match g_shape g with
-  | Single => Created
-  | Block ranges => if Nat.eqb (List.length ranges) 0 then CrValueError
+  | GSingle => Created
+  | GBlock ranges => if Nat.eqb (List.length ranges) 0 then CrValueError
                     else if forallb (fun r => 0 <=? r) ranges then Created else CrValueError
-  | Words kind n k => if (n <? 0) || (k <? 0) then CrValueError
+  | GWords kind n k => if (n <? 0) || (k <? 0) then CrValueError
                       else match kind with WCombRepl => if fix2 then Created else CrCrash | _ => Created end
   | UMap n m => if (n <? 0) || (m <? 0) then CrValueError else Created
   | BinMap n m => if (m <? 1) || (n <? 1) then CrValueError else Created
@@ -416,29 +423,29 @@ Definition create (fix2 : bool) (g : group) : creation :=
 
 (* ---------- manager + formula state ---------- *)
 Record vstate := mkstate {
-  numvar : Z;                          (* BaseCNF._numvar / BaseOPB._numvar *)
-  groups : list (Z * group);           (* VariablesManager._groups with the offset of each group *)
-  clauses : list (list Z)              (* the clauses inserted so far (literals as given) *)
+  st_numvar : Z;                          (* BaseCNF._numvar / BaseOPB._numvar *)
+  st_groups : list (Z * group);           (* VariablesManager._groups with the offset of each group *)
+  st_clauses : list (list Z)              (* the clauses inserted so far (literals as given) *)
 }.
-Definition init_state : vstate := mkstate 0 [] [].
+Definition vm_init : vstate := mkstate 0 [] [].
 
 Inductive op :=
-| NewGroup (g : group)
-| AddClause (c : list Z) (checked : bool)
-| RaiseNumvar (k : Z).
+| OpNewGroup (g : group)
+| OpAddClause (c : list Z) (checked : bool)
+| OpRaiseNumvar (k : Z).
 
 Inductive outcome :=
-| Done
-| Allocated (off : Z)      (* the new group owns off+1 .. off+gsize *)
-| ValueError
-| Crash.
+| VmDone
+| VmAllocated (off : Z)      (* the new group owns off+1 .. off+gsize *)
+| VmValueError
+| VmCrash.
 
 (* VariablesManager._add_variable_group *)
 Definition add_variable_group (st : vstate) (off : Z) (g : group) : vstate * outcome :=
   let n := gsize (g_shape g) in
-  if n =? 0 then (mkstate (numvar st) (groups st ++ [(off, g)]) (clauses st), Allocated off)
-  else if off + 1 <=? numvar st then (st, ValueError)
-  else (mkstate (Z.max (numvar st) (off + n)) (groups st ++ [(off, g)]) (clauses st), Allocated off).
+  if n =? 0 then (mkstate (st_numvar st) (st_groups st ++ [(off, g)]) (st_clauses st), VmAllocated off)
+  else if off + 1 <=? st_numvar st then (st, VmValueError)
+  else (mkstate (Z.max (st_numvar st) (off + n)) (st_groups st ++ [(off, g)]) (st_clauses st), VmAllocated off).
 
 (* which of the known defects are repaired in the modelled code: all false = the code as it is.
    fixD2: spelling of 'combinations_with_replacement'; fixD34: add_clause checks before it appends
@@ -447,39 +454,39 @@ Record variant := mkvariant { fixD2 : bool; fixD34 : bool }.
 Definition as_is : variant := mkvariant false false.
 Definition repaired : variant := mkvariant true true.
 
-Definition step (v : variant) (st : vstate) (o : op) : vstate * outcome :=
+Definition vm_step (v : variant) (st : vstate) (o : op) : vstate * outcome :=
   match o with
-  | NewGroup g =>
-      match create (fixD2 v) g with
-      | Created => add_variable_group st (numvar st) g
-      | CrValueError => (st, ValueError)
-      | CrCrash => (st, Crash)
+  | OpNewGroup g =>
+      match vg_create (fixD2 v) g with
+      | Created => add_variable_group st (st_numvar st) g
+      | CrValueError => (st, VmValueError)
+      | CrCrash => (st, VmCrash)
       end
-  | AddClause c checked =>
-      let st1 := mkstate (numvar st) (groups st) (clauses st ++ [c]) in
+  | OpAddClause c checked =>
+      let st1 := mkstate (st_numvar st) (st_groups st) (st_clauses st ++ [c]) in
       if checked then
-        if lits_ok c then (mkstate (Z.max (numvar st) (max_var_clause c)) (groups st) (clauses st ++ [c]), Done)
-        else if fixD34 v then (st, ValueError)
-        else (st1, ValueError)      (* the code as it is: the clause is appended BEFORE it is checked *)
-      else (st1, Done)
-  | RaiseNumvar k =>
-      if k <? 0 then (st, ValueError)
-      else (mkstate (Z.max (numvar st) k) (groups st) (clauses st), Done)
+        if lits_ok c then (mkstate (Z.max (st_numvar st) (max_var_clause c)) (st_groups st) (st_clauses st ++ [c]), VmDone)
+        else if fixD34 v then (st, VmValueError)
+        else (st1, VmValueError)      (* the code as it is: the clause is appended BEFORE it is checked *)
+      else (st1, VmDone)
+  | OpRaiseNumvar k =>
+      if k <? 0 then (st, VmValueError)
+      else (mkstate (Z.max (st_numvar st) k) (st_groups st) (st_clauses st), VmDone)
   end.
 
-Definition run (v : variant) (st : vstate) (ops : list op) : vstate :=
-  fold_left (fun s o => fst (step v s o)) ops st.
+Definition vm_run (v : variant) (st : vstate) (ops : list op) : vstate :=
+  fold_left (fun s o => fst (vm_step v s o)) ops st.
 
 (* per-step trace for the correspondence run *)
-Fixpoint trace (v : variant) (st : vstate) (ops : list op) : list (vstate * outcome) :=
+Fixpoint vm_trace (v : variant) (st : vstate) (ops : list op) : list (vstate * outcome) :=
   match ops with
   | [] => []
-  | o :: t => let r := step v st o in r :: trace v (fst r) t
+  | o :: t => let r := vm_step v st o in r :: vm_trace v (fst r) t
   end.
 
 (* ---------- all_variable_labels ---------- *)
 Definition default_label (dflt : list string) (v : Z) : string := render_or_empty dflt [print_Z v].
-Definition is_single (g : group) : bool := match g_shape g with Single => true | _ => false end.
+Definition is_single (g : group) : bool := match g_shape g with GSingle => true | _ => false end.
 
 (* [fixD3 = false]: the code as it is — a singleton group is emitted without
    filling the gap of anonymous variables before it *)
@@ -492,12 +499,12 @@ Fixpoint labels_loop (fixD3 : bool) (dflt : list string) (gs : list (Z * group))
         label_of_index g [] :: labels_loop fixD3 dflt t (varid + 1) endv
       else
         let begin := off + 1 in
-        map (default_label dflt) (zrange varid begin) ++ labels g
+        map (default_label dflt) (zrange varid begin) ++ vg_labels g
         ++ labels_loop fixD3 dflt t (Z.max varid begin + gsize (g_shape g)) endv
   end.
 
 Definition all_variable_labels (fixD3 : bool) (dflt : list string) (st : vstate) : list string :=
-  labels_loop fixD3 dflt (groups st) 1 (numvar st).
+  labels_loop fixD3 dflt (st_groups st) 1 (st_numvar st).
 
 (* the name variable v ought to have: the label of its group for its index, or the default name *)
 Fixpoint label_of_groups (dflt : list string) (gs : list (Z * group)) (v : Z) : string :=
@@ -505,11 +512,11 @@ Fixpoint label_of_groups (dflt : list string) (gs : list (Z * group)) (v : Z) : 
   | [] => default_label dflt v
   | (off, g) :: t =>
       if (off + 1 <=? v) && (v <=? off + gsize (g_shape g))
-      then match to_index off (g_shape g) v with
+      then match vg_to_index off (g_shape g) v with
            | Some i => label_of_index g i
            | None => EmptyString
            end
       else label_of_groups dflt t v
   end.
-Definition label_of (dflt : list string) (st : vstate) (v : Z) : string :=
-  label_of_groups dflt (groups st) v.
+Definition vg_label_of (dflt : list string) (st : vstate) (v : Z) : string :=
+  label_of_groups dflt (st_groups st) v.
